@@ -145,6 +145,8 @@ var (
 	progress *string
 )
 
+var propID string // the property the run is for (a few cases are read differently per property)
+
 func main() {
 	var ins inputs
 	family := flag.String("family", "", "case family")
@@ -154,6 +156,7 @@ func main() {
 	progress = flag.String("progress", "", "write the source of each case here before running it (slow; crash attribution)")
 	flag.Var(&ins, "in", "TLC output file (repeatable)")
 	flag.Parse()
+	propID = *prop
 	if err := abs.LoadPools(); err != nil {
 		fmt.Fprintln(os.Stderr, "vrun: pools:", err)
 		os.Exit(3)
